@@ -174,6 +174,13 @@ class Engine(object):
 
     def new_dict(self, st, cls=dict):
         r = self.new_ref(st, cls)
+        # ownership regions are a ghost labelling of containers: a new container of a class that has a named
+        # type with a region is labelled with it (it is distinct from every other object anyway)
+        from .model import NAMED_SPECS, REGIONS, region_of
+        for ns in NAMED_SPECS.values():
+            if ns.kind in ('dict', 'set') and ns.region is not None and ns.classes == (cls,):
+                self.assume(st, region_of(r) == REGIONS.setdefault(ns.region, len(REGIONS) + 1))
+                break
         st.heap['$LEN'] = z3.Store(self.harr(st, '$LEN'), r, z3.IntVal(0))
         st.heap['$DMAP'] = z3.Store(self.harr(st, '$DMAP'), r, z3.K(Val, ABSENT))
         return V(mkR(r), parse_spec('dict' if issubclass(cls, dict) else 'set'))
